@@ -18,7 +18,9 @@
 (*           operators on sign / base-2^14 limb records, used by the trace *)
 (*           specification on operands logged from real layers.  Their     *)
 (*           agreement with Part A / B on small operands is an invariant   *)
-(*           of IntegerizeMC (mode "big").                                 *)
+(*           of IntegerizeMC (mode "big");                                 *)
+(*   Part D  the life-cycle of a conversion: which weights / quantiser     *)
+(*           statistics / options a call of integerize_arch must use.      *)
 (*                                                                         *)
 (* No reals: the float target  s_w*s_x/s_y  of the approximation is a      *)
 (* DYADIC rational  tm / 2^te  (every float is one), `impl` selects a      *)
@@ -328,4 +330,48 @@ ShiftSelectBig(tms, tes, bs, scaleBit, shiftPos) ==
 \* floor(|x| * |scale/2^shift - T|)
 ApproxFloorBig(x, scale, shift, tm, te) ==
     BigToIntCap(BigFloorShr(BigMul(BigAbs(x), ApproxNumBig(scale, shift, tm, te)), DyK(shift, te)))
+
+(***************************************************************************)
+(* Part D.  life-cycle of a conversion (variable-free part; the state      *)
+(* machine is IntegerizeLife, the trace walk is in IntegerizeTrace).       *)
+(*                                                                         *)
+(* The fake-quantised model has WEIGHTS of version wv (0 after export();   *)
+(* every load_state_dict / optimizer step / in-place edit makes a new      *)
+(* version) and weight-quantiser STATISTICS of version sv: MinMaxWeight    *)
+(* keeps ch_min / ch_max as plain attributes that only a forward of the    *)
+(* quantiser refreshes (they are not in the state_dict), and `scale` is    *)
+(* derived from them.  The process holds per-backend option DEFAULTS.      *)
+(* integerize_arch(deepcopy(model), backend, options):                     *)
+(*   wFrom      version of the weights the integer weights are made of     *)
+(*   statsFrom  version of the statistics behind the stored s_w, hence     *)
+(*              behind scale / shift / integer bias                        *)
+(*   used       <<scale_bit, shift_pos>> the layers were built with        *)
+(*   replaced   every Quant layer of the graph became a backend layer      *)
+(*   defs'      process defaults afterwards                                *)
+(* impl "ref": intended;  "stale": s_w read before the quantiser is re-run *)
+(* on the current weights;  "sticky": the options of a call are merged     *)
+(* INTO the process defaults;  "flatnames": the backend layer is           *)
+(* registered under the fx node name, which is the module path only for    *)
+(* top-level attributes.  An option value 0 means "not passed".            *)
+(***************************************************************************)
+Opt(sb, sp)   == [sb |-> sb, sp |-> sp]
+DeclaredOpts(backend) == IF backend = "match" THEN Opt(24, 24) ELSE Opt(16, 32)
+DeclaredDefs  == [bk \in {"match", "maupiti"} |-> DeclaredOpts(bk)]
+MergeOpts(base, o) == Opt(IF o.sb = 0 THEN base.sb ELSE o.sb, IF o.sp = 0 THEN base.sp ELSE o.sp)
+
+LifeInit == [wv |-> 0, sv |-> 0, defs |-> DeclaredDefs]
+LifeFwd(st) == [st EXCEPT !.sv = st.wv]
+LifeUpd(st) == [st EXCEPT !.wv = st.wv + 1]
+\* result of one conversion and the state after it (the conversion works on a deep copy of the model)
+LifeInt(impl, st, backend, o, nest) ==
+    LET base == IF impl = "sticky" THEN st.defs[backend] ELSE DeclaredOpts(backend)
+        used == IF backend = "maupiti" THEN DeclaredOpts(backend) ELSE MergeOpts(base, o)
+    IN  [res |-> [backend |-> backend, o |-> o, wAt |-> st.wv,
+                  wFrom |-> st.wv,
+                  statsFrom |-> IF impl = "stale" THEN st.sv ELSE st.wv,
+                  used |-> used,
+                  replaced |-> (impl # "flatnames" \/ nest = "flat"),
+                  kwMut |-> FALSE],
+         st  |-> IF impl = "sticky" /\ backend = "match"
+                 THEN [st EXCEPT !.defs = [st.defs EXCEPT ![backend] = used]] ELSE st]
 =============================================================================
